@@ -557,6 +557,20 @@ fn c02(c: &mut Checker) {
             let mut out = vec![];
             rules::m_reports("M-reports", &exp, &r, Strict::Full, &all_classes, &mut out);
             rules::m_visits("M-visits", &exp, &r, &mut out);
+            // "the final error holds exactly one report for each independent fault": what was
+            // reported must also be what is returned
+            out.extend(conservation_rules(&r));
+            match (&r.outcome, exp.reports.is_empty()) {
+                (Outcome::Ok(_), false) => out.push(Violation {
+                    rule: "M-reports",
+                    msg: format!("the payload has {} independent faults but the call returned Ok", exp.reports.len()),
+                }),
+                (Outcome::Err { .. }, true) => out.push(Violation {
+                    rule: "M-reports",
+                    msg: "the payload has no fault but the call returned Err".to_string(),
+                }),
+                _ => {}
+            }
             c.stats.bump("expected_reports", exp.reports.len() as u64);
             if exp.reports.len() >= 2 {
                 c.stats.bump("probe_two_or_more_independent_faults", 1);
